@@ -21,9 +21,9 @@ PROP = {
         "n_thorough": 480,
     }],
     "rule": ("one real ExocoreApp (4 genesis operators validating with keys 0..3, hot pool of 6 consensus keys + fresh keys on demand, dogfood epoch = 'minute'); "
-             "4 directed scenarios first (opt-out before activation, replace-then-opt-out, opt-in while removing, A->B->C->A in one epoch), "
+             "7 directed scenarios first (opt-out before activation, replace-then-opt-out, opt-in while removing, A->B->C->A in one epoch, deselected key kept, jail/slash/unjail around a key replacement, epoch identifier exchange), "
              "then random segments of 18..41 steps of the running chain: MsgServer OptIntoAVS(with key)/SetConsKey/OptOutOfAVS, Keeper.OptIn, Keeper.SetOperatorConsKeyForChainID, "
-             "UndelegateFrom, dogfood UpdateParams(EpochsUntilUnbonded 1..3), EndBlock/Commit/BeginBlock with block gaps inside an epoch, "
+             "UndelegateFrom, dogfood Keeper.Jail / Unjail / SlashWithInfractionReason by consensus address, dogfood UpdateParams(EpochsUntilUnbonded 1..3, MaxValidators, EpochIdentifier), EndBlock/Commit/BeginBlock with block gaps inside an epoch, "
              "across one epoch end, or several epochs behind; keys drawn from the whole pool so that collisions with other operators' current, "
              "previous and not-yet-pruned keys are frequent; distinct = distinct case line; non-trivial = at least 3 op kinds"),
     "explanation": ("Theorems (Coq) about the executable model Dogfood/Model.v of the key registry and the dogfood queues for ALL histories; the "
@@ -38,8 +38,8 @@ PROP = {
         "the selection of validators by vote power (sel of EndBlock) is an input of the model: it is C06's subject",
     ],
     "assumptions": [
-        "operators are registered, not frozen, not jailed and keep a self-delegation above the AVS minimum (jailing/unjailing is not driven)",
+        "operators are registered, not frozen and keep a self-delegation above the AVS minimum (slashes are tiny: power 1, factor 1e-4)",
         "staking hooks called by ApplyValidatorChanges (slashing module) succeed",
-        "the dogfood epoch identifier parameter is not changed after genesis (queue keys are epoch numbers of that identifier)",
+        "a change of the dogfood epoch identifier is modelled as SetClock (accepted only while nothing is scheduled); the epochs module itself is C15's subject",
     ],
 }
